@@ -1,0 +1,50 @@
+//! Verification hooks. Only compiled with `--cfg helgoboss_midi_verif` (never in normal builds).
+//!
+//! Provides a thread-local mock clock and a drop-in replacement for `std::time::Instant` which
+//! reads it, so that a test driver can place `feed` and `poll` calls of the polling scanner at
+//! exact points in time.
+use core::fmt;
+use core::time::Duration;
+use std::cell::Cell;
+
+thread_local! {
+    static MOCK_NOW_NANOS: Cell<u64> = Cell::new(0);
+}
+
+/// Sets the current time of the calling thread's mock clock (nanoseconds since an arbitrary
+/// epoch).
+pub fn set_mock_time(nanos: u64) {
+    MOCK_NOW_NANOS.with(|c| c.set(nanos));
+}
+
+/// Returns the current time of the calling thread's mock clock in nanoseconds.
+pub fn mock_time() -> u64 {
+    MOCK_NOW_NANOS.with(|c| c.get())
+}
+
+/// Drop-in replacement for `std::time::Instant`, driven by the mock clock.
+#[derive(Copy, Clone, Eq, PartialEq, Ord, PartialOrd, Hash)]
+pub struct Instant(u64);
+
+impl Instant {
+    /// Returns the current time of the calling thread's mock clock.
+    pub fn now() -> Instant {
+        Instant(mock_time())
+    }
+
+    /// Returns the time that passed on the mock clock since this instant (saturating at zero).
+    pub fn elapsed(&self) -> Duration {
+        Duration::from_nanos(mock_time().saturating_sub(self.0))
+    }
+
+    /// Returns this instant in nanoseconds since the mock clock's epoch.
+    pub fn as_nanos(&self) -> u64 {
+        self.0
+    }
+}
+
+impl fmt::Debug for Instant {
+    fn fmt(&self, f: &mut fmt::Formatter<'_>) -> fmt::Result {
+        write!(f, "Instant({}ns)", self.0)
+    }
+}
